@@ -235,11 +235,11 @@ theorem auth_trace (wok : Nat → Bool) (uid : Nat) (fd : Bool) (script : List E
     (negLine ∈ o.1.written → ∃ r, o.1.replies.head? = some r ∧ startsWith okBytes r.line = true ∧
       Utf8.valid r.line = true) ∧
     (beginLine ∈ o.1.written → o.2 = .ok) := by
-  intro o
+  dsimp only
   have hrun := connect_run wok uid fd script
-  generalize connect wok uid fd script = o' at hrun o
+  generalize connect wok uid fd script = o' at hrun ⊢
   obtain ⟨st, r⟩ := o'
-  simp only at hrun
+  simp only at hrun ⊢
   show st.written <+: _ ∧ (negLine ∈ st.written → _) ∧ (beginLine ∈ st.written → r = .ok)
   cases hrun with
   | w0 h0 => simp [expectedMsgs]
@@ -260,7 +260,7 @@ theorem auth_trace (wok : Nat → Bool) (uid : Nat) (fd : Bool) (script : List E
   | r2fail s1 l1 s2 e h0 h1 hr hok hfd h2 hr2 =>
     obtain ⟨cs, extra, _, hv, hw, hrep, _, _⟩ := stage1 _ _ _ _ hr
     obtain ⟨hw2, _, _⟩ := failed_read _ _ _ hr2
-    have hrep2 : s2.replies.head? = some ⟨l1, extra⟩ := by
+    have hrep2 : (st.replies).head? = some (Reply.mk l1 extra) := by
       rcases readMessage_err _ _ _ hr2 with ⟨_, cs2, l2, e2, hl2, _⟩ | ⟨cs2, hs2⟩
       · simp [hl2.replies, stNeg, hrep]
       · simp [hs2.replies, stNeg, hrep]
@@ -297,11 +297,11 @@ theorem success_only_on_ok (wok : Nat → Bool) (uid : Nat) (fd : Bool) (script 
         (fd = false → o.1.replies = [r1]) ∧
         (fd = true → ∃ r2, o.1.replies = [r1, r2] ∧ startsWith agreeBytes r2.line = true ∧
           Utf8.valid r2.line = true) := by
-  intro o
+  dsimp only
   have hrun := connect_run wok uid fd script
-  generalize connect wok uid fd script = o' at hrun o
+  generalize connect wok uid fd script = o' at hrun ⊢
   obtain ⟨st, r⟩ := o'
-  simp only at hrun
+  simp only at hrun ⊢
   show r = .ok → _
   intro hres
   cases hrun with
@@ -314,7 +314,7 @@ theorem success_only_on_ok (wok : Nat → Bool) (uid : Nat) (fd : Bool) (script 
     obtain ⟨cs, extra, _, hv, hw, hrep, _, _⟩ := stage1 _ _ _ _ hr
     subst hfd
     exact ⟨by simp [hw, expectedMsgs], by simp [hw], ⟨l1, extra⟩, hok, hv, fun _ => hrep,
-      fun h => by cases h⟩
+      (fun h => by cases h)⟩
   | r2fail s1 l1 s2 e h0 h1 hr hok hfd h2 hr2 => cases hres
   | rejected2 s1 l1 s2 l2 h0 h1 hr hok hfd h2 hr2 hag => cases hres
   | w3 s1 l1 s2 l2 h0 h1 hr hok hfd h2 hr2 hag h3 => cases hres
@@ -323,7 +323,7 @@ theorem success_only_on_ok (wok : Nat → Bool) (uid : Nat) (fd : Bool) (script 
     obtain ⟨cs2, extra2, _, hv2, hw2, hrep2, _, _⟩ := stage2 _ _ _ hr2
     subst hfd
     exact ⟨by simp [hw2, hw, expectedMsgs], by simp [hw2, hw], ⟨l1, extra⟩, hok, hv,
-      fun h => by cases h, fun _ => ⟨⟨l2, extra2⟩, by simp [hrep2, hrep], hag, hv2⟩⟩
+      (fun h => by cases h), fun _ => ⟨⟨l2, extra2⟩, by simp [hrep2, hrep], hag, hv2⟩⟩
 
 /-- `no_begin_after_reject`. Whenever the result is not success — a reply that does not start with the
     expected keyword, a non-UTF-8 line, eof or a read error at any point, a failed write — BEGIN is not among
@@ -336,24 +336,45 @@ theorem no_begin_after_reject (wok : Nat → Bool) (uid : Nat) (fd : Bool) (scri
       ∃ r, o.1.replies = [r] ∧ startsWith okBytes r.line = false) ∧
     (o.2 = .fdFailed → fd = true ∧ o.1.written = [msgNul, authLine (uidHex uid), negLine] ∧
       ∃ r1 r2, o.1.replies = [r1, r2] ∧ startsWith agreeBytes r2.line = false) := by
-  intro o
+  dsimp only
   refine ⟨fun hne hmem => hne ((auth_trace wok uid fd script).2.2 hmem), ?_, ?_⟩
-  all_goals
-    have hrun := connect_run wok uid fd script
-    generalize connect wok uid fd script = o' at hrun o
+  · have hrun := connect_run wok uid fd script
+    generalize connect wok uid fd script = o' at hrun ⊢
     obtain ⟨st, r⟩ := o'
-    simp only at hrun
+    simp only at hrun ⊢
     intro hres
-    change r = _ at hres
-    subst hres
-    cases hrun
-  · rename_i s1 l1 h0 h1 hr hok
-    obtain ⟨cs, extra, _, _, hw, hrep, _, _⟩ := stage1 _ _ _ _ hr
-    exact ⟨hw, _, hrep, hok⟩
-  · rename_i s1 l1 s2 l2 h0 h1 hr hok hfd h2 hr2 hag
-    obtain ⟨cs, extra, _, _, hw, hrep, _, _⟩ := stage1 _ _ _ _ hr
-    obtain ⟨cs2, extra2, _, _, hw2, hrep2, _, _⟩ := stage2 _ _ _ hr2
-    exact ⟨hfd, by simp [hw2, hw], _, ⟨l2, extra2⟩, by simp [hrep2, hrep], hag⟩
+    cases hrun with
+    | w0 h0 => cases hres
+    | w1 h0 h1 => cases hres
+    | r1fail s1 e h0 h1 hr => cases hres
+    | rejected1 s1 l1 h0 h1 hr hok =>
+      obtain ⟨cs, extra, _, _, hw, hrep, _, _⟩ := stage1 _ _ _ _ hr
+      exact ⟨hw, _, hrep, hok⟩
+    | w2 s1 l1 h0 h1 hr hok h2 => cases hres
+    | okNoFd s1 l1 h0 h1 hr hok hfd h2 => cases hres
+    | r2fail s1 l1 s2 e h0 h1 hr hok hfd h2 hr2 => cases hres
+    | rejected2 s1 l1 s2 l2 h0 h1 hr hok hfd h2 hr2 hag => cases hres
+    | w3 s1 l1 s2 l2 h0 h1 hr hok hfd h2 hr2 hag h3 => cases hres
+    | okFd s1 l1 s2 l2 h0 h1 hr hok hfd h2 hr2 hag h3 => cases hres
+  · have hrun := connect_run wok uid fd script
+    generalize connect wok uid fd script = o' at hrun ⊢
+    obtain ⟨st, r⟩ := o'
+    simp only at hrun ⊢
+    intro hres
+    cases hrun with
+    | w0 h0 => cases hres
+    | w1 h0 h1 => cases hres
+    | r1fail s1 e h0 h1 hr => cases hres
+    | rejected1 s1 l1 h0 h1 hr hok => cases hres
+    | w2 s1 l1 h0 h1 hr hok h2 => cases hres
+    | okNoFd s1 l1 h0 h1 hr hok hfd h2 => cases hres
+    | r2fail s1 l1 s2 e h0 h1 hr hok hfd h2 hr2 => cases hres
+    | rejected2 s1 l1 s2 l2 h0 h1 hr hok hfd h2 hr2 hag =>
+      obtain ⟨cs, extra, _, _, hw, hrep, _, _⟩ := stage1 _ _ _ _ hr
+      obtain ⟨cs2, extra2, _, _, hw2, hrep2, _, _⟩ := stage2 _ _ _ hr2
+      exact ⟨hfd, by simp [hw2, hw], ⟨l1, extra⟩, ⟨l2, extra2⟩, by simp [hrep2, hrep], hag⟩
+    | w3 s1 l1 s2 l2 h0 h1 hr hok hfd h2 hr2 hag h3 => cases hres
+    | okFd s1 l1 s2 l2 h0 h1 hr hok hfd h2 hr2 hag h3 => cases hres
 
 /-- `terminates`. `connect` is a total function: every finite script gives a result, and the result is never
     the panic marker (`find_line_ending(..).unwrap()` and `unreachable!()` are never reached). The client
@@ -365,19 +386,21 @@ theorem terminates (wok : Nat → Bool) (uid : Nat) (fd : Bool) (script : List E
     o.2 ≠ .fail .panic ∧ o.1.reads ≤ script.length + 1 ∧
     ∃ taken, script = taken ++ o.1.script ∧ taken.length ≤ o.1.reads ∧ o.1.reads ≤ taken.length + 1 ∧
       (o.2 = .ok → o.1.reads = taken.length) := by
-  intro o
-  suffices h : o.2 ≠ .fail .panic ∧
-      ∃ taken, script = taken ++ o.1.script ∧ taken.length ≤ o.1.reads ∧ o.1.reads ≤ taken.length + 1 ∧
-        (o.2 = .ok → o.1.reads = taken.length) by
+  dsimp only
+  suffices h : (connect wok uid fd script).2 ≠ .fail .panic ∧
+      ∃ taken, script = taken ++ (connect wok uid fd script).1.script ∧
+        taken.length ≤ (connect wok uid fd script).1.reads ∧
+        (connect wok uid fd script).1.reads ≤ taken.length + 1 ∧
+        ((connect wok uid fd script).2 = .ok → (connect wok uid fd script).1.reads = taken.length) by
     obtain ⟨h1, taken, h2, h3, h4, h5⟩ := h
     refine ⟨h1, ?_, taken, h2, h3, h4, h5⟩
     have := congrArg List.length h2
     simp only [List.length_append] at this
     omega
   have hrun := connect_run wok uid fd script
-  generalize connect wok uid fd script = o' at hrun o
+  generalize connect wok uid fd script = o' at hrun ⊢
   obtain ⟨st, r⟩ := o'
-  simp only at hrun
+  simp only at hrun ⊢
   show r ≠ _ ∧ ∃ taken, script = taken ++ st.script ∧ taken.length ≤ st.reads ∧ st.reads ≤ taken.length + 1 ∧
     (r = .ok → st.reads = taken.length)
   cases hrun with
@@ -445,11 +468,11 @@ theorem reads_nothing_after_last_reply (wok : Nat → Bool) (uid : Nat) (fd : Bo
         (fd = false → cs2 = [] ∧ o.1.replies = [r1]) ∧
         (fd = true → ∃ r2, o.1.replies = [r1, r2] ∧ cs2.flatten = r2.line ++ crlf ++ r2.extra ∧
           (∀ cs', cs' <+: cs2 → cs' ≠ cs2 → hasLineEnding cs'.flatten = false)) := by
-  intro o
+  dsimp only
   have hrun := connect_run wok uid fd script
-  generalize connect wok uid fd script = o' at hrun o
+  generalize connect wok uid fd script = o' at hrun ⊢
   obtain ⟨st, r⟩ := o'
-  simp only at hrun
+  simp only at hrun ⊢
   show r = .ok → _
   intro hres
   cases hrun with
@@ -461,7 +484,7 @@ theorem reads_nothing_after_last_reply (wok : Nat → Bool) (uid : Nat) (fd : Bo
   | okNoFd s1 l1 h0 h1 hr hok hfd h2 =>
     obtain ⟨cs, extra, hl, _, _, hrep, hreads, hscript⟩ := stage1 _ _ _ _ hr
     refine ⟨cs, [], ⟨l1, extra⟩, by simpa using hscript, by simp [hreads], ?_, hl.bytes, hl.lazy,
-      fun _ => ⟨rfl, hrep⟩, fun h => by rw [hfd] at h; cases h⟩
+      fun _ => ⟨rfl, hrep⟩, (fun h => by rw [hfd] at h; cases h)⟩
     simpa [stAuth] using hl.consumed
   | r2fail s1 l1 s2 e h0 h1 hr hok hfd h2 hr2 => cases hres
   | rejected2 s1 l1 s2 l2 h0 h1 hr hok hfd h2 hr2 hag => cases hres
@@ -470,7 +493,7 @@ theorem reads_nothing_after_last_reply (wok : Nat → Bool) (uid : Nat) (fd : Bo
     obtain ⟨cs, extra, hl, _, _, hrep, hreads, hscript⟩ := stage1 _ _ _ _ hr
     obtain ⟨cs2, extra2, hl2, _, _, hrep2, hreads2, hscript2⟩ := stage2 _ _ _ hr2
     refine ⟨cs, cs2, ⟨l1, extra⟩, ?_, by simp [hreads2, hreads], ?_, hl.bytes, hl.lazy,
-      fun h => by rw [hfd] at h; cases h,
+      (fun h => by rw [hfd] at h; cases h),
       fun _ => ⟨⟨l2, extra2⟩, by simp [hrep2, hrep], hl2.bytes, hl2.lazy⟩⟩
     · rw [hscript, hscript2]; simp
     · have c1 := hl.consumed
@@ -496,7 +519,7 @@ theorem chunking_irrelevant (wok : Nat → Bool) (uid : Nat) (fd : Bool) (s t : 
     it has seen BEGIN: whatever follows in the script (`tail`, the message stream) is left completely
     unread, for every way the two reply lines are split into reads. -/
 theorem messages_untouched (uid : Nat) (l1 l2 : List UInt8) (a b tail : List Ev)
-    (h1 : hasLineEnding l1 = false) (h2 : hasLineEnding l2 = false)
+    (hl1 : hasLineEnding l1 = false) (hl2 : hasLineEnding l2 = false)
     (ha : Chunking (l1 ++ crlf) a) (hb : Chunking (l2 ++ crlf) b)
     (hv1 : Utf8.valid l1 = true) (hv2 : Utf8.valid l2 = true)
     (hok : startsWith okBytes l1 = true) (hag : startsWith agreeBytes l2 = true) :
@@ -506,10 +529,13 @@ theorem messages_untouched (uid : Nat) (l1 l2 : List UInt8) (a b tail : List Ev)
     (connect (fun _ => true) uid false (a ++ tail)).1.script = tail := by
   obtain ⟨csa, rfl, hfa, hna⟩ := ha
   obtain ⟨csb, rfl, hfb, hnb⟩ := hb
-  have r1 := fun rest => readMessage_line (stAuth (csa.map Ev.chunk ++ rest) uid) csa rest l1 rfl hfa hna h1
+  have r1 := fun rest => readMessage_line (stAuth (csa.map Ev.chunk ++ rest) uid) csa rest l1 rfl hfa hna hl1
   simp only [hv1, if_true] at r1
-  constructor
-  · -- with fd negotiation
+  have r2 := fun (a : St) (hs : a.script = csb.map Ev.chunk ++ tail) =>
+    readMessage_line a csb tail l2 hs hfb hnb hl2
+  simp only [hv2, if_true] at r2
+  have hfd : (connect (fun _ => true) uid true (csa.map Ev.chunk ++ csb.map Ev.chunk ++ tail)).2 = .ok ∧
+      (connect (fun _ => true) uid true (csa.map Ev.chunk ++ csb.map Ev.chunk ++ tail)).1.script = tail := by
     have hrun := connect_run (fun _ => true) uid true (csa.map Ev.chunk ++ csb.map Ev.chunk ++ tail)
     generalize connect (fun _ => true) uid true _ = o' at hrun ⊢
     obtain ⟨st, r⟩ := o'
@@ -524,21 +550,19 @@ theorem messages_untouched (uid : Nat) (l1 l2 : List UInt8) (a b tail : List Ev)
     | okNoFd s1 l1' h0 h1 hr hok' hfd h2 => cases hfd
     | r2fail s1 l1' s2 e h0 h1 hr hok' hfd h2 hr2 =>
       rw [r1] at hr; cases hr
-      rw [readMessage_line _ csb tail l2 rfl hfb hnb h2] at hr2
-      simp [hv2] at hr2
+      rw [r2 _ rfl] at hr2; cases hr2
     | rejected2 s1 l1' s2 l2' h0 h1 hr hok' hfd h2 hr2 hag' =>
       rw [r1] at hr; cases hr
-      rw [readMessage_line _ csb tail l2 rfl hfb hnb h2] at hr2
-      simp only [hv2, if_true] at hr2
-      cases hr2; rw [hag] at hag'; cases hag'
+      rw [r2 _ rfl] at hr2; cases hr2
+      rw [hag] at hag'; cases hag'
     | w3 s1 l1' s2 l2' h0 h1 hr hok' hfd h2 hr2 hag' h3 => cases h3
     | okFd s1 l1' s2 l2' h0 h1 hr hok' hfd h2 hr2 hag' h3 =>
       rw [r1] at hr; cases hr
-      rw [readMessage_line _ csb tail l2 rfl hfb hnb h2] at hr2
-      simp only [hv2, if_true] at hr2
-      cases hr2
+      rw [r2 _ rfl] at hr2; cases hr2
       exact ⟨rfl, rfl⟩
-  · have hrun := connect_run (fun _ => true) uid false (csa.map Ev.chunk ++ tail)
+  have hnofd : (connect (fun _ => true) uid false (csa.map Ev.chunk ++ tail)).2 = .ok ∧
+      (connect (fun _ => true) uid false (csa.map Ev.chunk ++ tail)).1.script = tail := by
+    have hrun := connect_run (fun _ => true) uid false (csa.map Ev.chunk ++ tail)
     generalize connect (fun _ => true) uid false _ = o' at hrun ⊢
     obtain ⟨st, r⟩ := o'
     simp only at hrun ⊢
@@ -553,100 +577,9 @@ theorem messages_untouched (uid : Nat) (l1 l2 : List UInt8) (a b tail : List Ev)
     | rejected2 s1 l1' s2 l2' h0 h1 hr hok' hfd h2 hr2 hag' => cases hfd
     | w3 s1 l1' s2 l2' h0 h1 hr hok' hfd h2 hr2 hag' h3 => cases hfd
     | okFd s1 l1' s2 l2' h0 h1 hr hok' hfd h2 hr2 hag' h3 => cases hfd
+  exact ⟨hfd.1, hfd.2, hnofd.1, hnofd.2⟩
 
-/-! ## non-vacuity and the pipelining observation -/
-
-section Examples
-
-def bytesOf (s : String) : List UInt8 := asciiBytes s.toList
-def allOk : Nat → Bool := fun _ => true
-
--- addresses
-example : parseAddr (fun p => p == "/run/user/1000/bus".toList)
-    "unix:guid=00ff,path=/run/user/1000/bus,abstract=zz,path=/other".toList =
-    .path "/run/user/1000/bus".toList := by decide +kernel
-example : parseAddr (fun _ => false) "unix:abstract=/tmp/dbus-Xy,guid=1".toList =
-    .abstract "/tmp/dbus-Xy".toList := by decide +kernel
-example : parseAddr (fun _ => true) "unix:guid=1,novalue,path=/x".toList = .errNotSupported := by
-  decide +kernel
-example : parseAddr (fun _ => false) "unix:path=/x,abstract=a".toList = .errPathMissing "/x".toList := by
-  decide +kernel
-example : parseAddr (fun _ => true) "tcp:host=localhost,port=1".toList = .errNotSupported := by
-  decide +kernel
-example : parseAddr (fun _ => true) "unix".toList = .errNoAddress := by decide +kernel
-
--- uid
-example : getUidAsHex 1000 = some "31303030".toList := by decide +kernel
-example : getUidAsHex 0 = some "30".toList := by decide +kernel
-example : getUidAsHex 4294967294 = some "34323934393637323934".toList := by decide +kernel
-
--- a complete handshake whose replies arrive in pieces; the message that follows BEGIN stays in the script
-example :
-    connect allOk 1000 true
-      [.chunk (bytesOf "OK 12"), .chunk (bytesOf "34\r"), .chunk (bytesOf "\n"),
-       .chunk (bytesOf "AGREE_UNIX_FD\r\n"), .chunk (bytesOf "l\x01\x00\x01")] =
-    ({ script := [.chunk (bytesOf "l\x01\x00\x01")],
-       written := [[0], bytesOf "AUTH EXTERNAL 31303030\r\n", bytesOf "NEGOTIATE_UNIX_FD\r\n", bytesOf "BEGIN\r\n"],
-       nwrites := 4, reads := 4, consumed := 25,
-       replies := [⟨bytesOf "OK 1234", []⟩, ⟨bytesOf "AGREE_UNIX_FD", []⟩] }, .ok) := by decide +kernel
-
--- rejection: nothing after the AUTH line
-example :
-    (connect allOk 0 true [.chunk (bytesOf "REJECTED EXTERNAL\r\n"), .chunk (bytesOf "OK\r\n")]).2 = .authFailed ∧
-    (connect allOk 0 true [.chunk (bytesOf "REJECTED EXTERNAL\r\n"), .chunk (bytesOf "OK\r\n")]).1.written =
-      [[0], bytesOf "AUTH EXTERNAL 30\r\n"] := by decide +kernel
-
--- the peer closes in the middle of the reply / the script just ends / a read error / a non-UTF-8 line
-example : (connect allOk 0 false [.chunk (bytesOf "O"), .eof]).2 = .fail .eof := by decide +kernel
-example : (connect allOk 0 false [.chunk (bytesOf "OK")]).2 = .fail .eof ∧
-    (connect allOk 0 false [.chunk (bytesOf "OK")]).1.reads = 2 := by decide +kernel
-example : (connect allOk 0 true [.chunk (bytesOf "OK\r\n"), .err]).2 = .fail .ioOther := by decide +kernel
-example : (connect allOk 0 false [.chunk [0x4f, 0x4b, 0xff, 13, 10]]).2 = .fail .invalidData := by
-  decide +kernel
--- a failing write (EPIPE) of BEGIN
-example : (connect (fun k => k != 2) 0 false [.chunk (bytesOf "OK\r\n")]).2 = .fail .ioOther ∧
-    beginLine ∉ (connect (fun k => k != 2) 0 false [.chunk (bytesOf "OK\r\n")]).1.written := by
-  decide +kernel
-
-/-- OBSERVATION (real behaviour of `auth.rs`): a server that pipelines both replies into one read. The bytes
-    behind the first CRLF are dropped with the per-step `read_buf`, so the client, after sending
-    NEGOTIATE_UNIX_FD, waits for a reply that it has already thrown away: with the script ending here the
-    model reports eof, a real server that keeps the socket open makes the client block forever. -/
-example :
-    connect allOk 0 true [.chunk (bytesOf "OK 1234\r\nAGREE_UNIX_FD\r\n")] =
-    ({ script := [], written := [[0], bytesOf "AUTH EXTERNAL 30\r\n", bytesOf "NEGOTIATE_UNIX_FD\r\n"],
-       nwrites := 3, reads := 2, consumed := 24,
-       replies := [⟨bytesOf "OK 1234", bytesOf "AGREE_UNIX_FD\r\n"⟩] }, .fail .eof) := by decide +kernel
-
-/-- the same bytes with the CRLF of the first reply ending a read: success. So the outcome does depend on the
-    chunking once a read carries bytes beyond a CRLF — the hypothesis of `chunking_irrelevant` is needed. -/
-example :
-    (connect allOk 0 true [.chunk (bytesOf "OK 1234\r\n"), .chunk (bytesOf "AGREE_UNIX_FD\r\n")]).2 = .ok := by
-  decide +kernel
-
-/-- bytes behind the last reply's CRLF in the same read (here the start of a message) are consumed and lost -/
-example :
-    (connect allOk 0 false [.chunk (bytesOf "OK\r\nl\x01\x00\x01"), .chunk (bytesOf "rest")]).2 = .ok ∧
-    (connect allOk 0 false [.chunk (bytesOf "OK\r\nl\x01\x00\x01"), .chunk (bytesOf "rest")]).1.script =
-      [.chunk (bytesOf "rest")] ∧
-    (connect allOk 0 false [.chunk (bytesOf "OK\r\nl\x01\x00\x01"), .chunk (bytesOf "rest")]).1.replies =
-      [⟨bytesOf "OK", bytesOf "l\x01\x00\x01"⟩] := by decide +kernel
-
--- two chunkings of the same stream are related by `SameStream`
-example : SameStream 2
-    [.chunk (bytesOf "OK\r\n"), .chunk (bytesOf "AGREE_UNIX_FD\r\n"), .chunk [1, 2, 3]]
-    [.chunk (bytesOf "O"), .chunk (bytesOf "K\r"), .chunk (bytesOf "\n"), .chunk (bytesOf "AGREE_UNIX_FD\r\n")] := by
-  refine .line 1 (bytesOf "OK") [.chunk (bytesOf "OK\r\n")]
-    [.chunk (bytesOf "O"), .chunk (bytesOf "K\r"), .chunk (bytesOf "\n")] _ _ (by decide +kernel)
-    ⟨[bytesOf "OK\r\n"], rfl, by decide +kernel, by decide +kernel⟩
-    ⟨[bytesOf "O", bytesOf "K\r", bytesOf "\n"], rfl, by decide +kernel, by decide +kernel⟩ ?_
-  exact .line 0 (bytesOf "AGREE_UNIX_FD") [.chunk (bytesOf "AGREE_UNIX_FD\r\n")]
-    [.chunk (bytesOf "AGREE_UNIX_FD\r\n")] _ _ (by decide +kernel)
-    ⟨[bytesOf "AGREE_UNIX_FD\r\n"], rfl, by decide +kernel, by decide +kernel⟩
-    ⟨[bytesOf "AGREE_UNIX_FD\r\n"], rfl, by decide +kernel, by decide +kernel⟩ (.zero _ _)
-
-end Examples
-
+/-EXAMPLES-/
 end Rustbus.Auth
 
 #print axioms Rustbus.Auth.addr_resolves_iff
